@@ -17,7 +17,7 @@ META = {
                   'majority, position_to_context with the explicit context table, XM/count tags) against the clauses of C14 for '
                   'every reference window of length 4/5 over {A,C,G,T,N} (both strands, both conventions, unconverted / converted '
                   '/ third base) and for every placement of two mates on a window of 3/4 bases (dove-tails, disjoint, single-end, '
-                  'quality ties, two fragments); eleven named deviations are negative controls. Every scenario of those models is '
+                  'quality ties, two fragments, dove distances); twelve named deviations are negative controls. Every scenario of those models is '
                   'replayed into the real classes and, together with random molecules (gapped reads, soft clips, 1-4 fragments, '
                   'non-ACGT / soft-masked references, contig ends), judged by TLC from raw observations.',
     'level_note': 'Trusted: TLC/SANY, CommunityModules, pysam as record/FASTA container, the driver\'s projection (copies fields). '
@@ -36,6 +36,7 @@ NEGATIVES = [
     ('mc_omits_chh', ['Inv_C14_Totals']),
     ('safe_end_off_by_one', ['Inv_C14_DoveSafe']),
     ('dove_unsafe', ['Inv_C14_DoveSafe']),
+    ('dove_distance_sign', ['Inv_C14_DoveSafe']),
     ('totals_per_read', ['Inv_C14_Totals']),
     ('xm_only_calls', ['Inv_C14_XMLen']),
 ]
